@@ -367,7 +367,7 @@ fn format_expression_internal(
     }
 }
 
-/// Determines whether the provided [`Expression`] is a brackets string, i.e. `[[string]]`
+/// Determines whether the provided [`Expression`] is (or begins with) a brackets string, i.e. `[[string]]`
 /// We care about this because `[ [[string] ]` is invalid syntax if we remove the whitespace
 pub fn is_brackets_string(expression: &Expression) -> bool {
     match expression {
@@ -380,6 +380,10 @@ pub fn is_brackets_string(expression: &Expression) -> bool {
         ),
         #[cfg(feature = "luau")]
         Expression::TypeAssertion { expression, .. } => is_brackets_string(expression),
+        // Parentheses around a string are removed, and a binary expression begins with its leftmost operand
+        // [e.g. `t[([[string]])]` or `t[ [[string]] .. x]`]
+        Expression::Parentheses { expression, .. } => is_brackets_string(expression),
+        Expression::BinaryOperator { lhs, .. } => is_brackets_string(lhs),
         _ => false,
     }
 }
